@@ -258,7 +258,7 @@ BAD_PRESET = {"options": {"maxNesting": 20, "html": False, "linkify": False, "ty
               "components": {"core": {"rules": ["normalize", "block", "inline", "text_join"]},
                              "block": {"rules": ["paragraph", "list"]},
                              "inline": {"rules": ["text", "emphasis", "nope"], "rules2": ["balance_pairs", "emphasis", "fragments_join"]}}}
-PROBE = "*a* ~~b~~ `c`\n\n|a|\n|-|\n\n> q\n\n- l\n\n    # indented\n"
+PROBE = "*a* ~~b~~ `c`\n\n|a|\n|-|\n\n> q\n\n- l\n\nz\n\n    # indented\n"
 
 
 def f_ops(quick):
